@@ -231,6 +231,17 @@ pub fn swarm(prop: &str, seed: u64) -> (GenCfg, Suffix, Shape) {
                 }
             }
         }
+        "C11" if seed % 2 == 1 => {
+            // fault-position enumeration over a fault-free schedule
+            shape = Shape::FaultPositions;
+            c.events = r.range(6, 30);
+            c.w_event[EW_FAULT] = 0;
+            c.w_op[OW_PANIC] = 0;
+            c.w_cb = [3, 3, 2, 2, 0];
+            c.arenas = if r.chance(1, 3) { 2 } else { 1 };
+            c.w_event[EW_NEW_ARENA] = if c.arenas > 1 { 2 } else { 0 };
+            c.max_objs = c.max_objs.min(16);
+        }
         "C11" => {
             c.w_event[EW_FAULT] = 4;
             c.w_op[OW_PANIC] = 1;
